@@ -219,6 +219,12 @@ class MessageManager(interfaces.TokenInterface, interfaces.MessageManager):
         """If the message is the response can be used to satisfy a future
         duplicate message, store it."""
 
+        if message.mtype is not ACK:
+            # Only an ACK answers a request under the request's message ID;
+            # anything else that happens to carry the same number was numbered
+            # from our own message ID space.
+            return
+
         key = (message.remote, message.mid)
         if key in self._recent_messages:
             self._recent_messages[key] = message
